@@ -193,6 +193,9 @@ func Load() (*Loaded, error) {
 				return nil, fmt.Errorf("%s: opaque %s: %v", pp, key, err)
 			}
 			L.Engine.Opaque[fn] = true
+			if pc.Recursive[key] {
+				L.Engine.Recursive[fn] = true
+			}
 		}
 		for key := range pc.Transparent {
 			recv, name := "", key
